@@ -50,6 +50,14 @@ def file (d : Disp) : String :=
   | some t => if t.file != "" then t.file else d.filename
   | none => d.filename
 
+/-- `errPos`: the position `Err` / `SyntaxErr` name — the current token's or, past the end of the input, the last token's -/
+def errPos (d : Disp) : String × Nat :=
+  match d.tokens.getLast? with
+  | some last =>
+    if d.cursor ≥ d.len then (if last.file != "" then last.file else d.filename, last.line)
+    else (d.file, d.line)
+  | none => (d.file, d.line)
+
 def setCursor (d : Disp) (c : Int) : Disp := { d with cursor := c }
 
 /-- `Next` -/
